@@ -91,6 +91,11 @@ fn main() {
         usage();
     }
     let prop = args[1].clone();
+    if prop == "families" {
+        use refmodel::gen;
+        println!("flag {} cased {} adjacent {} / {} tail {} / {} position(1,false) {} position(2,false) {}", gen::flag_family().len(), gen::cased_family().len(), gen::adjacent_family(false).len(), gen::adjacent_family(true).len(), gen::tail_family(false).len(), gen::tail_family(true).len(), gen::position_family(1, false).len(), gen::position_family(2, false).len());
+        return;
+    }
     if prop == "alphabet" {
         for e in &args[2..] {
             if let Ok(g) = wax::Glob::new(e) {
